@@ -96,6 +96,10 @@ pub trait Space: Sync {
     fn serial(&self) -> bool {
         false
     }
+    /// free-form dump of what happens in one case (only used by `replay` with VERIF_DEBUG)
+    fn debug(&self, _id: u64) -> String {
+        String::new()
+    }
 }
 
 // ------------------------------------------------------------------
